@@ -9,6 +9,7 @@ import (
 	"reflect"
 	"regexp"
 	"strconv"
+	"strings"
 	"testing"
 	"unsafe"
 
@@ -35,7 +36,7 @@ type jany struct {
 	Keys [][]byte `json:"keys,omitempty"`
 }
 
-var janyNumbers = []string{"0", "-1", "1.5", "1e100", "-0", "12345678901234567890123", "", "abc", "1.", "0x10", "NaN", " 1", "1e", "007"}
+var janyNumbers = []string{"0", "-1", "1.5", "1e100", "-0", "12345678901234567890123", "1e400", "-2.5e+309", "1e-400", "9" + strings.Repeat("0", 320), "", "abc", "1.", "0x10", "NaN", " 1", "1e", "007"}
 
 func genJAny(t *rapid.T, depth int) jany {
 	ws := []int{10, 3, 3}
@@ -58,7 +59,7 @@ func genJAny(t *rapid.T, depth int) jany {
 			return jany{K: "str", S: genJString(t)}
 		default:
 			if rapid.Bool().Draw(t, "numvalid") {
-				return jany{K: "num", S: []byte(janyNumbers[rapid.IntRange(0, 4).Draw(t, "num")])}
+				return jany{K: "num", S: []byte(janyNumbers[rapid.IntRange(0, 9).Draw(t, "num")])}
 			}
 			return jany{K: "num", S: []byte(janyNumbers[rapid.IntRange(0, len(janyNumbers)-1).Draw(t, "num")])}
 		}
